@@ -349,10 +349,16 @@ func (q *ProvideQueue) DrainDatastore(ctx context.Context, d ds.Batching) error 
 
 		// Key format: "/position/prefix"
 		parts := strings.Split(strings.TrimPrefix(result.Key, "/"), "/")
-		if len(parts) != 2 {
+		var prefix bitstr.Key
+		switch {
+		case len(parts) == 2:
+			prefix = bitstr.Key(parts[1])
+		case len(parts) == 1 && parts[0] != "":
+			// "/position": the empty prefix, whose (empty) path component is
+			// dropped by the datastore key cleaning in Persist.
+		default:
 			continue // Skip invalid keys
 		}
-		prefix := bitstr.Key(parts[1])
 
 		// Decode concatenated multihashes
 		keys, err := decodeMultihashes(result.Value)
